@@ -426,6 +426,10 @@ func c01Exec(t *verifh.T, c verifh.Case) {
 	retries, _ := strconv.Atoi(c01KV(c.Cfg, "retries"))
 	ttl, _ := strconv.ParseInt(c01KV(c.Cfg, "ttl"), 10, 64)
 	skip := c01KV(c.Cfg, "skip") == "1"
+	rps, _ := strconv.Atoi(c01KV(c.Cfg, "rps")) // ReadPartSize (absent = 0: plain file reads)
+	if rps < 0 || rps > 1<<24 {
+		rps = 0
+	}
 	if len(c.Cfg) == 0 {
 		c.Cfg = []string{"mem=0", "max=0", "retries=0", "ttl=0", "skip=0"}
 	}
@@ -446,6 +450,7 @@ func c01Exec(t *verifh.T, c verifh.Case) {
 		UploadCleanup:        CleanupConfig{Disabled: true},
 		CacheCleanup:         CleanupConfig{Disabled: true},
 		SkipHashVerification: skip,
+		ReadPartSize:         rps,
 		MemoryCache: MemoryCacheConfig{
 			Enabled:         mem,
 			MaxSize:         max,
@@ -615,6 +620,45 @@ func TestVerif_C01(t *testing.T) {
 		}
 	}
 
+	// (a'') part-limited file reads (ReadPartSize ≠ 0: the last bytes of a file come back together with io.EOF)
+	// and blobs at multiples of the 128 KB hashing buffer / of the part size: the genuine blob is accepted,
+	// genuine ++ short tail and genuine minus a short tail are refused under the genuine name — through
+	// CreateCacheFile and through an upload commit
+	{
+		mk := func(n int, salt byte) []byte {
+			b := make([]byte, n)
+			for i := range b {
+				b[i] = byte(i*7+i/251) ^ salt
+			}
+			return b
+		}
+		type pc struct {
+			rps, n int
+		}
+		list := []pc{{4096, 131072}, {131072, 131072}, {1048576, 262144}, {1, 0}, {3, 6}, {4096, 8192}, {0, 131072}}
+		if verifh.Thorough() {
+			list = append(list, pc{1, 131072}, pc{4096, 262144}, pc{131072, 393216}, pc{1048576, 1048576}, pc{65536, 131072})
+		}
+		for i, x := range list {
+			cfg := []string{"mem=" + verifh.Bool(i%2 == 1), "max=2000000", "retries=1", "ttl=10000000000", "skip=0", "rps=" + strconv.Itoa(x.rps)}
+			G := c01MkBlob(mk(x.n, byte(i)))
+			ext := append(append([]byte{}, G.data...), 1, 2, 3, 4, 5)
+			variants := [][]byte{ext, G.data}
+			if x.n >= 5 {
+				variants = append(variants, G.data[:x.n-5])
+			}
+			for vi, v := range variants {
+				c01Exec(tr, verifh.Case{Cfg: cfg, Ops: [][]string{{"op", "createCache", G.name, verifh.Hex(v)}}})
+				tr.Count("partread_cases", 1)
+				if vi == 0 || x.n < 100000 {
+					c01Exec(tr, verifh.Case{Cfg: cfg, Ops: [][]string{
+						{"op", "createUpload", "u0"}, {"op", "writeUpload", "u0", "0", verifh.Hex(v)}, {"op", "commit", "u0", G.name}}})
+					tr.Count("partread_cases", 1)
+				}
+			}
+		}
+	}
+
 	// (b) seeded random histories
 	r := verifh.NewRand(verifh.Seed(), "c01")
 	nCases := verifh.Scale(300, 12000)
@@ -639,6 +683,9 @@ func TestVerif_C01(t *testing.T) {
 		max := []int{0, 3, 9, 10, 18, 64, 1000}[r.Intn(7)]
 		cfg := []string{"mem=" + verifh.Bool(mem), "max=" + strconv.Itoa(max), "retries=" + strconv.Itoa(r.Intn(3)),
 			"ttl=" + []string{"0", "5000000000", "10000000000"}[r.Intn(3)], "skip=" + verifh.Bool(r.Chance(1, 15))}
+		if r.Chance(1, 3) {
+			cfg = append(cfg, "rps="+r.Pick("1", "2", "3", "4096", "131072", "1048576"))
+		}
 		var ops [][]string
 		uploads := []string{"u0", "u1"}
 		lastUp := map[string]string{}
